@@ -37,6 +37,8 @@ type Outcome struct {
 	served                 bool
 	exitSeen, passedAtExit bool // Serve left its loop; the close deadline in force had passed by then
 	elemsRead, handled     int  // elements of the peer that Serve has read / that the handler was called for
+	TagAttempts, BytesAfter int // write attempts of the closing tag at the connection; bytes handed to it after the first
+	faulted                bool
 }
 
 const keyStateLock = "C10/close/deadlock:state-lock-held-across-write"
@@ -119,6 +121,7 @@ func (f *forced) enabled(i int) bool {
 		// session) can be scheduled; a peer event or the timer would wake a
 		// reading Serve into that mutex
 		switch a.Kind {
+		case "fault":
 		case "peer", "timer":
 			if f.serve >= 0 && f.st[f.serve].status == "blockedInput" {
 				return false
@@ -423,6 +426,11 @@ func (f *forced) advance(i int) {
 		f.r.peerQ <- peerBytes(a.Ev, i, f.sc.WS)
 		f.serveWakes()
 		return
+	case "fault":
+		f.r.fault.Store(true)
+		f.st[i].status = "done"
+		f.res[i] = "ENil"
+		return
 	case "timer":
 		j := timerFor(f.sc, i)
 		at := f.shortAt[j]
@@ -566,6 +574,7 @@ func runForced(sc *Scenario, choose func(depth int, enabled []int) int) *Outcome
 	f.c.releaseAll()
 	r.watch.Store(false)
 	r.wmu.Lock()
+	o.TagAttempts, o.BytesAfter, o.faulted = r.tagAttempts, r.bytesAfter, r.fault.Load()
 	if len(r.lockedWrites) > 0 {
 		who := "a goroutine of the library"
 		if a := f.c.actorOf(r.lockedWrites[0]); a >= 0 {
